@@ -3,4 +3,4 @@ From Coq Require Import ExtrOcamlBasic.
 From Coq Require Extraction.
 From LJT Require Import model.Pnm model.Bmp model.ImgEntry model.RdCommon model.Gif model.Tga.
 Extraction Language OCaml.
-Extraction "x_c18.ml" load_pnm save_pnm look_fn look_tbl layout_of_pf bmp_header load_bmp save_bmp tj_load_dp tj_fmt cj_accepts cj_fmt load_gif gif_header load_tga tga_header.
+Extraction "x_c18.ml" load_pnm save_pnm look_fn look_tbl layout_of_pf bmp_header load_bmp load_bmp_cj save_bmp tj_load_dp tj_fmt cj_accepts cj_fmt load_gif gif_header load_tga tga_header.
